@@ -56,13 +56,15 @@ class _ExprEncoder(_StandaloneEncoder[List[Operation]]):
     def decode(
         self, io: BinaryIO, byteorder: ByteOrder, ptr_size: int
     ) -> Tuple[List[Operation], int]:
-        length, len_read = leb128.u.decode_reader(io)
+        length, len_read = _ULEB128Encoder().decode(io, byteorder, ptr_size)
         ops = []
         op_bytes_read = 0
         while op_bytes_read < length:
             op, op_read = Operation.decode(io, byteorder, ptr_size)
             ops.append(op)
             op_bytes_read += op_read
+        if op_bytes_read != length:
+            raise ValueError("operation extends past the end of its block")
         return ops, len_read + op_bytes_read
 
 
